@@ -26,6 +26,7 @@
 package envelope
 
 import (
+	"bytes"
 	"errors"
 	"fmt"
 	"io"
@@ -273,6 +274,32 @@ func ToIPLD(privKey crypto.PrivKey, token Tokener) (datamodel.Node, error) {
 		qp.ListEntry(la, qp.Bytes(signature))
 		qp.ListEntry(la, qp.Node(sigPayloadNode))
 	})
+}
+
+// ErrNotCanonical is returned when sealed data is not the canonical DAG-CBOR
+// encoding of the token it carries.
+var ErrNotCanonical = errors.New("sealed token is not canonically encoded")
+
+// CheckCanonical verifies that data is exactly the canonical DAG-CBOR encoding of
+// the node it decodes to. The signature covers the decoded content, not the bytes:
+// without this check a token would have many sealed forms (non-minimal lengths,
+// indefinite-length items, reordered map keys, ...) and therefore many CIDs.
+func CheckCanonical(data []byte) error {
+	node, err := ipld.Decode(data, dagcbor.Decode)
+	if err != nil {
+		return err
+	}
+
+	canonical, err := ipld.Encode(node, dagcbor.Encode)
+	if err != nil {
+		return err
+	}
+
+	if !bytes.Equal(canonical, data) {
+		return ErrNotCanonical
+	}
+
+	return nil
 }
 
 // FindTag inspects the given token IPLD representation and extract the token tag.
